@@ -5,7 +5,7 @@ PROPS["C08"] = dict(
     rule="case = (shape in {Cache[string,int], ECache[[]string,string,int] with inner key = lower-cased join so that 3 distinct PKs "
          "collide per key, ExpirableCache[string,*item] whose expiry flag is owned by the harness, Cache[string,any] (shape iface: the value type is an INTERFACE type and a successful "
          "creation hands over, as its op says, a non-nil pointer, the nil interface value - create returns (nil, nil) - or a typed nil pointer)}, capacity, key alphabet size, "
-         "nil-or-not delete callback, op list over GetOrCreate(key, PK variant, create outcome ok|error, expirable only: Born = 0 or a run of 1..4, iface only: kind of the created value) / Remove(key, PK variant) / "
+         "nil-or-not delete callback, op list over GetOrCreate(key, PK variant, create outcome ok|error (with the SHAPE OF THE ERROR VALUE, see below), expirable only: Born = 0 or a run of 1..4, iface only: kind of the created value) / Remove(key, PK variant) / "
          "Clear / mark-a-resident-item-expired (expirable only)) followed by a fixed epilogue (capacity insertions of fresh keys, "
          "each of which must evict the then least recently used entry, then a final Clear and the created/deleted ledger balance). "
          "Capacities: 1-8 and 64, and - one rapid case in eleven (a third of them ending with a Clear, a quarter without delete callback) plus three exhaustive cells - a capacity from {math.MaxInt, math.MaxInt-1, 2^40, 2^31, 2^16}, "
@@ -26,10 +26,17 @@ PROPS["C08"] = dict(
          "recently used entry if full), removes it again (one delete callback for it) and calls create exactly once more; a stale resident is removed (one callback) and created once; in both "
          "cases what the one replacement creation returns is returned and resident as it is, stale or not - never a third create call or a second callback for the key in one call; a later "
          "GetOrCreate finds it stale and replaces it once again. A failing create outcome applies to every create call of the op (so a born-expired item is never followed by a failed replacement). "
+         "Shapes of the error value (Op.Err, rapid part, also nested creations; p_lru/errkinds.go): a failing create function returns a drawn one of: plain fmt.Errorf value; error wrapping another (%w); an error class of golibs/errors (os.ErrNotExist ... ErrInternal), bare or wrapped; "
+         "a TYPED NIL POINTER of a custom error type (var e *T; return v, e - the interface value is != nil, so the creation has failed); a value of a zero-size struct type; a value whose Error method panics when called (the unchanged cache never calls it: it decides on err != nil alone); "
+         "context.Canceled / DeadlineExceeded; a value of a slice type (not comparable: == on two of them would panic); a non-nil pointer of the custom type; errors.Join of two. For each: a failed creation is one whose error result is != nil as Go defines it; GetOrCreate must return that very error "
+         "(errors.Is, for the slice type errors.As plus identity of the backing array; Error() is never called by the harness either) together with no insertion, no eviction, no delete callback (lru:fail-callbacks), and the next GetOrCreate of the key must call create again (the reference keeps the key absent); "
+         "the failing create function returns -1 / nil as value. Classes failed_creation_error_<shape>. The exhaustive part uses the plain shape. "
          "Excluded: the residency of a stale item after a failed re-creation (not determined by the "
          "documentation; followed, not asserted); concurrency (C09). GetOrCreate may carry a re-entrant create function: a nested program of at most 2 calls (GetOrCreate, Remove, rarely Clear; at most 2 levels deep) on other keys of the same cache, run by the create function before its own outcome (never on a key in flight: the single-flight table would make the call wait for itself); reference: the nested calls are ordinary calls at that moment, then the outer value is inserted as most recently used with eviction of the then least recently used entry. The ecache shape also covers reference-like PKs whose memory the caller recycles: the harness keeps two reusable []string key buffers and, in half of the ecache cases, makes two thirds of its GetOrCreate/Remove calls (also nested ones) through a buffer after overwriting its content with the call's key text, so PKs stored by earlier calls are mutated behind the cache; residency, hits, eviction order and capacity must follow the inner key as computed at call time.",
     assumptions=["a creation that returns (nil value, nil error) is a successful creation in the sense of the statement ('a miss calls the create function once and, on success, inserts the value'): CreatePoolElemF is "
                  "func(K) (V, error), the code and the comments decide on the error alone and say nothing that would single out a value; the same for the delete callback ('for every entry that leaves the cache')",
+                 "a creation has failed exactly when the create function's error result is != nil in Go's sense; that includes a nil pointer of a concrete error type stored in the error interface (the caller of GetOrCreate receives it as a non-nil error, "
+                 "so for the caller the creation failed and 'a failed creation changes nothing' applies); the cache is given no licence to inspect the error value",
                  "every maxSize >= 1 is a legal capacity (NewECache refuses only maxSize < 1); math.MaxInt is how callers spell 'no limit'",
                  "reference LRU written from the C08 statement and the comments of ecache.go / expirable.go; residency is probed only "
                  "through return values, create-call counts and delete callbacks",
